@@ -1,4 +1,5 @@
 import ApdVerif.Oracle.Exact
+import ApdVerif.Oracle.Roots
 /-!
 # Per-operation specification oracles evaluated on the implementation's outputs
 (Quantize / RoundToIntegral / Ceil / Floor — C09; QuoInteger / Rem — C10)
@@ -18,6 +19,12 @@ def aligned (x y : Dec) : Nat × Nat × Int :=
 
 def delivered (e : ErrKind) : Bool := e == .none || e == .trap
 
+/-- strip trailing zeros: `(stripped, count)` (local copy to keep the oracle independent of the model) -/
+def stripZAux : Nat → Nat → Int → Nat × Int
+  | 0, n, k => (n, k)
+  | fuel+1, n, k => if n != 0 && n % 10 == 0 then stripZAux fuel (n / 10) (k + 1) else (n, k)
+def stripZ (n : Nat) : Nat × Int := stripZAux n n 0
+
 def ceilInt (x : Dec) : Int :=
   let p := 10 ^ (-x.exp).toNat
   if x.neg then -((x.coeff / p : Nat) : Int)
@@ -29,6 +36,8 @@ def floorInt (x : Dec) : Int :=
 
 /-- property failures `(property, reason)` of one context-operation outcome -/
 def opOracle (op : String) (c : Ctx) (x y : Dec) (iarg : Int) (o : Out) : List (String × String) :=
+  -- a trap error not explained by the returned flags is an internal failure: nothing was delivered
+  let delivered : ErrKind → Bool := fun e => e == .none || (e == .trap && (o.fl &&& c.traps).any)
   if c.prec == 0 || x.form != .finite then [] else
   match op with
   | "quantize" =>
@@ -85,6 +94,27 @@ def opOracle (op : String) (c : Ctx) (x y : Dec) (iarg : Int) (o : Out) : List (
       (if s.matches o.d then [] else [("C10", s!"remainder is not x - q*y rounded (r={r} e={a.2.2})")]) ++
       (if o.fl.inexact == s.inexact then [] else [("C10", "Inexact wrong for remainder")])
     else (if o.d.form == .nan && o.fl == Cond.cDivImpossible then [] else [("C10", "expected DivisionImpossible")])
+  | "sqrt" =>
+    if x.coeff == 0 || x.neg || !(delivered o.err) then [] else
+    let s := specSqrt c x
+    (if s.matches o.d then [] else
+      if sqrtDoubleRoundingShape c x o.d then
+        [("C11", s!"sqrt-double-rounding: root within 1e-guard ulp of a tie, rounded twice; expected m={s.m} q={s.q}")]
+      else [("C11", s!"Sqrt is not the half-even rounding of the exact root: expected m={s.m} q={s.q} inf={s.inf}")]) ++
+    (if o.fl.inexact == s.inexact then [] else [("C11", s!"Sqrt Inexact={o.fl.inexact} but exact-root test says {s.inexact}")])
+  | "cbrt" =>
+    if x.coeff == 0 || !(delivered o.err) then [] else
+    if o.d.form != .finite then [] else
+    (if o.d.neg == x.neg then [] else [("C11", "Cbrt sign")]) ++
+    (if cbrtWithinUlp c x o.d then [] else [("C11", "Cbrt result is more than one unit in the last place from the exact root")]) ++
+    (match perfectCube x with
+     | some (r, k) =>
+       let rs := stripZ r
+       if ndigits rs.1 ≤ c.prec && (k + rs.2 + (ndigits rs.1 : Int) - 1 ≤ c.emax) && (k + rs.2 ≥ c.emin) then
+         (if o.d.form == .finite && (if o.d.exp ≥ k then o.d.coeff * 10 ^ (o.d.exp - k).toNat == r else o.d.coeff == r * 10 ^ (k - o.d.exp).toNat) && !o.fl.inexact then []
+          else [("C11", s!"perfect cube: expected exact root {r}E{k} without Inexact")])
+       else []
+     | none => [])
   | _ => []
 
 end Apd.Oracle
